@@ -5885,7 +5885,9 @@ class Path(Shape, MutableSequence):
         """ensure the close element at this position correctly links to the previous move"""
         for i in range(index, -1, -1):
             segment = self._segments[i]
-            if isinstance(segment, Move):
+            if isinstance(segment, Move) or (
+                i != index and isinstance(segment, Close) and segment.end is not None
+            ):
                 self._segments[index].end = Point(segment.end)
                 return
         self._segments[index].end = (
@@ -6114,7 +6116,10 @@ class Path(Shape, MutableSequence):
         """
         end_pos = None
         for segment in reversed(self._segments):
-            if isinstance(segment, Move):
+            if isinstance(segment, Move) or (
+                isinstance(segment, Close) and segment.end is not None
+            ):
+                # A close ends at the start of its subpath, which is also where the next subpath starts.
                 end_pos = segment.end
                 break
         if end_pos is None:
